@@ -49,5 +49,9 @@ PROPS = {
     "C16": dict(module="MRB.Props.C16", level="proof", profiles=[], engines=["c16"], gen_items=["sendSync"],
                 trusted=["rustc's trait solver is the ground truth for Send/Sync; the auto-trait rule is modelled over the finite universe wrapper x role x buffer kind x (item Send?, item Sync?)"],
                 explanation="decide over the whole finite universe from the regenerated impl table + rustc probes"),
+    "C17": dict(module="MRB.Props.C17", level="proof", engines=["vmemprobe"],
+                profiles=[prof("vmem", 16, 200, features=["vmem"]), prof("vmemseam", 5, 40, features=["vmem"]), prof("vmemown", 5, 40, features=["vmem"])],
+                gen_items=["pageSizeMul", "nextChunkVm", "nextChunkMutVm", "vmemCalls"],
+                trusted=["kernel mmap/munmap/sysconf behaviour is assumed", "page size 4096 in the harness"]),
     "C18": dict(module="MRB.Props.C18", level="proof", profiles=[prof("construct", 500)], gen_items=[], trusted=SEQ_TRUST),
 }
